@@ -25,7 +25,9 @@ LEVEL = "exploration"
 RULE = (
     "Hypothesis draws a choice sequence from which a recursive expression model is built deterministically (all 28 ast classes of "
     "_node_map, all operators, depth <=4 quick / <=6 thorough); the model is rendered by ast.unparse into one of 16 storage positions x {future import, none} x 9 Literal spellings. "
-    "non-trivial = nesting depth >=2 and (CPython's unparser parenthesises at least one operand, or the tree holds a "
+    "In addition every lambda / def parameter-list shape within the bounds of EXHAUSTIVE_NOTE is enumerated (distinct integer defaults; lambdas at "
+    "rotating positions, defs judged per stored parameter default; non-trivial = at least one parameter, each shape visited once). "
+    "Sampled cases: non-trivial = nesting depth >=2 and (CPython's unparser parenthesises at least one operand, or the tree holds a "
     "comprehension / lambda / f-string / starred / slice node, or a string constant sits in an annotation position); "
     "distinct = distinct (position kind, future import, normalised dump of the expected tree)"
 )
@@ -44,6 +46,13 @@ ASSUMPTIONS = [
     "the resolvable-name clause demands canonical_path == 'm.A' / 'pkg.B' only for the module-level class A and the imported B when "
     "the expression does not rebind them; for all other names only that canonical_path does not raise",
 ]
+EXHAUSTIVE = True
+EXHAUSTIVE_NOTE = {
+    "quick": "every lambda / def parameter-list shape with <=3 positional-only, <=4 regular, <=2 keyword-only parameters, any right-aligned run "
+    "of positional defaults, any subset of keyword-only defaults, with/without *args and **kwargs (2520 shapes x {lambda, def}); "
+    "everything else is sampled",
+    "thorough": "the same with <=4 positional-only, <=5 regular, <=3 keyword-only parameters (9900 shapes x {lambda, def}); everything else is sampled",
+}
 BUDGET_S = {"quick": 45.0, "thorough": 1000.0}
 SHRINK_MAX_EXAMPLES = 70000
 
@@ -480,9 +489,52 @@ def _bound_names(node) -> set[str]:
     return out
 
 
+def check_signature(case) -> list[Fail]:
+    """Default values stored for a whole `def` parameter list: every stored default must be the source default of
+    *that* parameter (a default stored where the source has none has no source expression to be equivalent to)."""
+    import griffe
+
+    lam = G.to_ast(G.signature_lambda(tuple(case["sig"])))
+    fn = _fn("f", lam.args)
+    stmt = _cls("K", body=[fn]) if case.get("method") else fn
+    text = ast.unparse(ast.fix_missing_locations(ast.Module([stmt], []))) + "\n"
+    tree = ast.parse(text)
+    src_fn = tree.body[0].body[0] if case.get("method") else tree.body[0]
+    a = src_fn.args
+    pos = a.posonlyargs + a.args
+    source = dict(zip([x.arg for x in pos], [None] * (len(pos) - len(a.defaults)) + list(a.defaults)))
+    source.update(zip([x.arg for x in a.kwonlyargs], a.kw_defaults))
+    module = call("total", griffe.visit, "m", filepath=None, code=text, what=f"visit of {text!r}")
+    try:
+        function = module.members["K"].members["f"] if case.get("method") else module.members["f"]
+        params = {p.name: p for p in function.parameters}
+    except (KeyError, AttributeError) as exc:
+        return [Fail("stored", "missing:def-signature", f"{text!r}: function not stored: {exc!r}")]
+    fails: list[Fail] = []
+    sig = ast.unparse(a)
+    for name, src in source.items():
+        if name not in params:
+            fails.append(Fail("stored", "missing:parameter", f"def f({sig}): parameter {name} not stored"))
+            continue
+        stored = params[name].default
+        if src is None:
+            if stored is not None:
+                fails.append(Fail("equivalent", "Parameter:default-without-source", f"def f({sig}): parameter {name} has no default in the source, Griffe stored {str(stored)!r}"))
+            continue
+        if stored is None:
+            fails.append(Fail("stored", "none:parameter-default", f"def f({sig}): default of {name} ({ast.unparse(src)!r}) was not stored"))
+            continue
+        got, err = parse_eval(call("render", str, stored, what=f"str() of the default of {name}"), False)
+        if got is None or not same(src, got):
+            fails.append(Fail("equivalent", "Parameter:wrong-default", f"def f({sig}): default of {name} is {ast.unparse(src)!r} in the source, Griffe stored {str(stored)!r}"))
+    return fails
+
+
 def check_case(case) -> list[Fail]:
     import griffe
 
+    if case.get("pos") == "def-signature":
+        return check_signature(case)
     r = render(case)
     fails: list[Fail] = []
     module = call("total", griffe.visit, "m", filepath=None, code=r.text, what=f"visit of {r.text!r}")
@@ -746,8 +798,42 @@ def describe(case):
     return key, sorted(classes), sample
 
 
+def _enumerate_signatures(ctx) -> None:
+    """Exhaustive part: every parameter-list shape within the bounds, once as a lambda stored at a rotating storage
+    position (rendering of ExprLambda) and once as a `def` / method signature (defaults stored per parameter)."""
+    shapes = G.signature_shapes(*ctx.scale((3, 4, 2), (4, 5, 3)))
+    if ctx.shard == 0:
+        ctx.res.extra["signature_shapes"] = len(shapes)
+    for i, shape in enumerate(shapes):
+        if i % ctx.nshards != ctx.shard:
+            continue
+        npo, npk, nd, va, nko, kmask, vk = shape
+        label = ["sig:lambda", "sig:defaults-span-slash" if npo and nd > npk else "sig:no-span"]
+        if npo and 0 < nd < npk:
+            label.append("sig:posonly+partial-regular-defaults")
+        cases = [
+            {"pos": POSITIONS[i % len(POSITIONS)], "future": bool(i & 1), "lit": None, "expr": G.signature_lambda(shape)},
+            {"pos": "def-signature", "sig": list(shape), "method": bool(i & 1)},
+        ]
+        for case in cases:
+            from vp.common.harness import run_check
+
+            fails = run_check(check_case, case)
+            lam = case["pos"] != "def-signature"
+            nontrivial = (npo + npk + nko + va + vk) > 0
+            sample = None
+            if i % 397 == 5:
+                sample = {"position": case["pos"], "source": ast.unparse(render(case).expr) if lam else "def f(" + ast.unparse(G.to_ast(G.signature_lambda(shape)).args) + ")"}
+            ctx.case(1 if nontrivial else None, label if lam else ["sig:def"] + label[1:], sample, enumerated=True)
+            for f in fails:
+                ctx.fail(f, case)
+
+
 def run_shard(ctx) -> None:
     strat, salt = strategy(ctx)
+    _enumerate_signatures(ctx)
+    # the enumerated sub-space is complete unless the budget ran out inside it (it runs first)
+    ctx.res.extra["enum_complete"] = not ctx.res.budget_exhausted
 
     def describe_and_count(case):
         for slug, k in (case.get("steered") or {}).items():
